@@ -2,6 +2,7 @@ package props
 
 import (
 	"fmt"
+	"os"
 	"runtime"
 	"strings"
 	"testing"
@@ -100,7 +101,10 @@ func checkC18(c C18Case) Verdict {
 				}
 			})
 		}) {
-			return excluded("parse does not return (C05 matter)")
+			// a parse that never returns is C05's matter; its goroutine cannot be killed and every later
+			// parse of this process may block too, so nothing more can be judged here
+			fmt.Printf("INFRA: a parse did not return within the watchdog limit (property C05 decides that): %s\n", in.Show)
+			os.Exit(2)
 		}
 		if in.From == "trailing-tokens" || strings.Contains(string(in.Input), "=\"") {
 			nt = true
